@@ -225,6 +225,20 @@ def _split_positions(s, a0, sep, a1):
     return [L(s) == L(a0) + L(sep) + L(a1), z3.SubString(s, 0, L(a0)) == a0, z3.SubString(s, L(a0), L(sep)) == sep, z3.SubString(s, L(a0) + L(sep), L(a1)) == a1]
 
 
+def split_index_facts(lst, j, st):
+    """Ground positional facts for the pieces 0..j of a separator split (asked for when the code reads pieces[j] with a constant j)."""
+    s, sz, off, n = lst.split_positions
+    arr = lst.arr
+    if not isinstance(j, int):
+        # a symbolic index: the piece read lies inside the text
+        st.fact(z3.Implies(z3.And(0 <= j, j < n), z3.And(off[j] >= 0, off[j] + z3.Length(arr[j]) <= z3.Length(s))))
+        return
+    st.fact(z3.Implies(j < n, z3.And(off[j] >= 0, off[j] + z3.Length(arr[j]) <= z3.Length(s))))
+    for i in range(min(j, 8) + 1):
+        st.fact(z3.Implies(i + 1 < n, z3.And(off[i + 1] == off[i] + z3.Length(arr[i]) + z3.Length(sz), z3.SubString(s, off[i] + z3.Length(arr[i]), z3.Length(sz)) == sz)))
+        st.fact(z3.Implies(i < n, z3.And(arr[i] == z3.SubString(s, off[i], z3.Length(arr[i])), z3.Not(z3.Contains(arr[i], sz)))))
+
+
 def _split_positions_lemma():
     s, a0, sep, a1 = z3.Consts("s a0 sep a1", S)
     return [(str(k), [s == z3.Concat(a0, sep, a1)], g) for k, g in enumerate(_split_positions(s, a0, sep, a1))]
@@ -239,7 +253,7 @@ def split_model(ex, recv, name, args, kwargs, st):
     n = fresh("npieces", I)
     arr = fresh("pieces", ArrIS)
     lst = VList(arr, n, "bytes")
-    ex.assumed.add("bytes.split/rsplit: pieces re-joined by the separator give the receiver; no separator inside a piece (no maxsplit); at most maxsplit+1 pieces; whitespace split drops empty pieces")
+    ex.assumed.add("bytes.split/rsplit: pieces re-joined by the separator give the receiver (piece k at offset OFF[k], consecutive pieces one separator apart, the last piece ends the text); no separator inside a piece (no maxsplit); at most maxsplit+1 pieces; whitespace split drops empty pieces")
     if sep is None or isinstance(sep, VNone):
         # whitespace split: pieces are non-empty and whitespace-free
         st.fact(n >= 0)
@@ -284,6 +298,11 @@ def split_model(ex, recv, name, args, kwargs, st):
         st.fact(z3.Implies(n == 1, arr[0] == s))
         # the first piece is the text before the first separator
         st.fact(z3.And(z3.PrefixOf(arr[0], s), z3.Implies(z3.Length(sz) > 0, (z3.Length(arr[0]) == 0) == z3.Or(z3.PrefixOf(sz, s), z3.Length(s) == 0))))
+        # positions: piece k starts at OFF[k]; consecutive pieces are one separator apart; every piece lies inside the text and is free of the separator
+        off = uf(ex, "SPLITOFF_" + name.upper(), S, S, z3.ArraySort(I, I))(s, sz)
+        st.fact(z3.And(off[0] == 0, off[n - 1] + z3.Length(arr[n - 1]) == z3.Length(s)))
+        lst = VList(arr, n, "bytes")
+        lst.split_positions = (s, sz, off, n)  # the facts that place piece j are handed out when code indexes the list with the constant j
     lst.split_info = ("sep", s, sz, maxsplit)
     return lst
 
